@@ -612,8 +612,8 @@ class PDFStandardSecurityHandlerV5(PDFStandardSecurityHandlerV4):
         self.length = 256
         self.oe = str_value(self.param["OE"])
         self.ue = str_value(self.param["UE"])
-        if len(self.oe) < 32 or len(self.ue) < 32:
-            # they hold the encrypted 32-byte file key
+        if len(self.oe) != 32 or len(self.ue) != 32:
+            # they hold the encrypted 32-byte file key, no more and no less
             raise PDFEncryptionError("Invalid /OE or /UE in encryption dictionary")
         self.o_hash = self.o[:32]
         self.o_validation_salt = self.o[32:40]
